@@ -7,18 +7,22 @@ use crate::scn_lair::DAY_NS;
 
 pub fn scenario(tier: &str) -> EpochScn {
     let mut roots = vec![
-        ERoot { label: "manager/1d/0hooks".into(), distributor: false, duration_ns: DAY_NS, hooks: 0, genesis_frac_ns: 0 },
-        ERoot { label: "manager/1d/2hooks".into(), distributor: false, duration_ns: DAY_NS, hooks: 2, genesis_frac_ns: 0 },
-        ERoot { label: "distributor/1d".into(), distributor: true, duration_ns: DAY_NS, hooks: 0, genesis_frac_ns: 0 },
+        ERoot { label: "manager/1d/0hooks".into(), distributor: false, duration_ns: DAY_NS, hooks: 0, genesis_frac_ns: 0, genesis_zero: false },
+        ERoot { label: "manager/1d/2hooks".into(), distributor: false, duration_ns: DAY_NS, hooks: 2, genesis_frac_ns: 0, genesis_zero: false },
+        ERoot { label: "distributor/1d".into(), distributor: true, duration_ns: DAY_NS, hooks: 0, genesis_frac_ns: 0, genesis_zero: false },
     ];
     // clocks that do not fall on whole seconds: genesis at +0.75 s, duration one day and one nanosecond
-    roots.push(ERoot { label: "manager/1d+1ns/1hook/genesis+0.75s".into(), distributor: false, duration_ns: DAY_NS + 1, hooks: 1, genesis_frac_ns: 750_000_000 });
-    roots.push(ERoot { label: "manager/1d/0hooks/genesis+0.75s".into(), distributor: false, duration_ns: DAY_NS, hooks: 0, genesis_frac_ns: 750_000_000 });
-    roots.push(ERoot { label: "distributor/1d+1ns/genesis+0.75s".into(), distributor: true, duration_ns: DAY_NS + 1, hooks: 0, genesis_frac_ns: 750_000_000 });
+    roots.push(ERoot { label: "manager/1d+1ns/1hook/genesis+0.75s".into(), distributor: false, duration_ns: DAY_NS + 1, hooks: 1, genesis_frac_ns: 750_000_000, genesis_zero: false });
+    roots.push(ERoot { label: "manager/1d/0hooks/genesis+0.75s".into(), distributor: false, duration_ns: DAY_NS, hooks: 0, genesis_frac_ns: 750_000_000, genesis_zero: false });
+    roots.push(ERoot { label: "distributor/1d+1ns/genesis+0.75s".into(), distributor: true, duration_ns: DAY_NS + 1, hooks: 0, genesis_frac_ns: 750_000_000, genesis_zero: false });
+    // genesis at time 0 (the default configuration): every epoch since 1970 is overdue, so creations succeed back to
+    // back in one block and the start times must still advance by one duration each
+    roots.push(ERoot { label: "distributor/1d/genesis0".into(), distributor: true, duration_ns: DAY_NS, hooks: 0, genesis_frac_ns: 0, genesis_zero: true });
+    // (the epoch manager refuses a start time in the past at instantiation, so only the distributor can be configured so)
     if tier != "quick" {
-        roots.push(ERoot { label: "manager/3d/3hooks".into(), distributor: false, duration_ns: 3 * DAY_NS, hooks: 3, genesis_frac_ns: 0 });
-        roots.push(ERoot { label: "manager/3d/1hook".into(), distributor: false, duration_ns: 3 * DAY_NS, hooks: 1, genesis_frac_ns: 0 });
-        roots.push(ERoot { label: "distributor/3d".into(), distributor: true, duration_ns: 3 * DAY_NS, hooks: 0, genesis_frac_ns: 0 });
+        roots.push(ERoot { label: "manager/3d/3hooks".into(), distributor: false, duration_ns: 3 * DAY_NS, hooks: 3, genesis_frac_ns: 0, genesis_zero: false });
+        roots.push(ERoot { label: "manager/3d/1hook".into(), distributor: false, duration_ns: 3 * DAY_NS, hooks: 1, genesis_frac_ns: 0, genesis_zero: false });
+        roots.push(ERoot { label: "distributor/3d".into(), distributor: true, duration_ns: 3 * DAY_NS, hooks: 0, genesis_frac_ns: 0, genesis_zero: false });
     }
     EpochScn { roots }
 }
